@@ -51,6 +51,11 @@ enum XOp {
     /// the universe (every repetition pattern). Independent of the state: swept from the empty state only.
     FromArray { idx: u16 },
     SetFromArray { idx: u16 },
+    /// `dst.clone_from(&src)`, dst = the state; src: 0 the same entries in reversed slot order, 1 rotated
+    /// by one slot, 2 the first half only (shorter), 3 the state plus one more key (longer, if it fits),
+    /// 4 empty. (Equal length with another slot order is the case an in-place overwrite gets wrong.)
+    CloneFrom { src: u8 },
+    SetCloneFrom { src: u8 },
 }
 const N_HOW: u8 = 9;
 
@@ -131,6 +136,10 @@ fn xops(n: usize, nk: u8) -> Vec<XOp> {
         for how in 0..N_HOW {
             v.push(XOp::Driven { iter, how });
         }
+    }
+    for src in 0..5u8 {
+        v.push(XOp::CloneFrom { src });
+        v.push(XOp::SetCloneFrom { src });
     }
     for idx in 0..(nk as usize).pow(n as u32).min(4096) {
         v.push(XOp::FromArray { idx: idx as u16 });
@@ -633,6 +642,49 @@ fn run_x<const N: usize>(gsys: &MapSys<Kx, Vx, N>, path: &[u32], x: XOp, at: u32
             flush_ledger(cx, PM, "during the driven iteration / the unwinding");
             drop(hk);
             drop(hv);
+        }
+        XOp::CloneFrom { src } | XOp::SetCloneFrom { src } => {
+            let mut items: Vec<(u8, u8, u8)> = in_order.clone();
+            match src {
+                0 => items.reverse(),
+                1 => {
+                    if !items.is_empty() {
+                        items.rotate_left(1);
+                    }
+                }
+                2 => items.truncate(items.len() / 2),
+                3 => {
+                    if items.len() < N {
+                        if let Some(k) = (0..nk).find(|k| !items.iter().any(|e| e.0 == *k)) {
+                            items.insert(0, (k, 1, 0));
+                        }
+                    }
+                }
+                _ => items.clear(),
+            }
+            if let XOp::CloneFrom { .. } = x {
+                let mut o = Canary::boxed(Map::<Kx, Vx, N>::new());
+                for (k, t_, v) in &items {
+                    o.c.insert(Kx::new(*k, 1 - *t_), Vx::new(*v));
+                }
+                let m = &mut mapbx.as_mut().unwrap().c;
+                pl::arm(at);
+                let _ = catch_unwind(AssertUnwindSafe(|| m.clone_from(&o.c)));
+                (ticks, fired) = pl::disarm();
+                flush_ledger(cx, PM, "during clone_from / the unwinding");
+                other_map = Some(o);
+            } else {
+                mapbx = None;
+                let mut d = set_of_state::<N>(&keys);
+                let ks: Vec<(u8, u8)> = items.iter().map(|e| (e.0, 1 - e.1)).collect();
+                let o = set_of_state::<N>(&ks);
+                pl::arm(at);
+                let _ = catch_unwind(AssertUnwindSafe(|| d.c.clone_from(&o.c)));
+                (ticks, fired) = pl::disarm();
+                flush_ledger(cx, PM, "during Set::clone_from / the unwinding");
+                exercise_and_drop_set(o, nk, cx, PM, true);
+                setbx = Some(d);
+            }
         }
         XOp::FromArray { idx } | XOp::SetFromArray { idx } => {
             mapbx = None;
